@@ -65,15 +65,20 @@ def m_format_seq(ex, st, callee, args, dest_ty):
                     and (p[3] or {}).get("zero") and (p[3] or {}).get("width"):
                 w = int(p[3]["width"])
                 v = p[2].e
-                digs = []
                 up = 55 if p[1] == "upper_hex" else 87
-                for j in range(w - 1, -1, -1):       # zero-padded to the width; wider values are refused below
-                    d = (v / (16 ** j)) % 16
-                    digs.append(Sc(z3.simplify(z3.If(d < 10, 48 + d, up + d)), "char"))
+
+                def digits_of(n):
+                    out = []
+                    for j in range(n - 1, -1, -1):
+                        d = (v / (16 ** j)) % 16
+                        out.append(Sc(z3.simplify(z3.If(d < 10, 48 + d, up + d)), "char"))
+                    return out
+                # zero-padded to the width; a value that needs more digits gets them all (std::fmt): widths up to 8 digits (u32)
                 for st3 in ex.branch(st, v < 16 ** w):
-                    yield from rec(st3, k + 1, acc + digs)
-                for st3 in ex.branch(st, v >= 16 ** w):
-                    raise MirUnsupported("hexadecimal argument wider than its field")
+                    yield from rec(st3, k + 1, acc + digits_of(w))
+                for n in range(w + 1, 9):
+                    for st3 in ex.branch(st, z3.And(v >= 16 ** (n - 1), v < 16 ** n)):
+                        yield from rec(st3, k + 1, acc + digits_of(n))
             else:
                 raise MirUnsupported("format argument %r" % (p,))
         yield from rec(st2, 0, [])
